@@ -348,10 +348,15 @@ def termination(T: Trace, case: Dict[str, Any]) -> Tuple[List[Finding], Optional
     if ex.stalled:
         st = ex.stalled
         in_tawazi = any("/tawazi/" in f for f in st["frames"])
+        # nodes blocked on a gate of the controller have entered but cannot finish on their own
+        free_running = [s for s in st["running"] if s not in set(st["gated"])]
         if in_tawazi and not st["in_hook"] and not st["running"] and not st["pending"]:
             bad.append(("hang-nothing-in-flight", f"no progress for {st['idle_s']}s with nothing in flight; scheduler at {st['frames'][-3:]}", None))
-        elif in_tawazi and not st["in_hook"] and not st["running"] and st["gated"] and ex.mode == "ctl":
-            bad.append(("hang-never-waits", f"no progress for {st['idle_s']}s: nodes {st['gated']} are in flight but the scheduler never waits for them; scheduler at {st['frames'][-3:]}", None))
+        elif in_tawazi and not st["in_hook"] and not free_running and st["gated"] and ex.mode == "ctl" and st.get("killed"):
+            # witness: the scheduler thread is inside tawazi and outside every wait primitive, the only nodes in flight
+            # are waiting for a wait call to hand them back, and it still had not returned 3 s after every gate was
+            # opened (so it is not merely blocked on something the controller withholds): it spins without waiting
+            bad.append(("hang-never-waits", f"no progress for {st['idle_s']}s: nodes {st['gated']} are in flight but the scheduler never waits for them (it did not return after all of them were allowed to finish); scheduler at {st['frames'][-3:]}", None))
         else:
             inconclusive = "stall-without-witness"
     nblock = sum(1 for e in T.ev if e["k"] == "WAIT" and e.get("blocking"))
